@@ -177,7 +177,7 @@ theorem inv_assignPlain (c : Cfg) (s : St) (p : Nat) (v : Int) (h : Inv c s none
     have hl : ∀ t, (clearP s p).last p ≠ .task t := by intro t; simp [clearP, upd]
     have key := inv_set_plain c (clearP s p) p v (s.log ++ [(p, v)]) hc hl
     refine Inv.congr ?_ key
-    constructor <;> simp [clearP, popCancel_vals, popCancel_refs, popCancel_last, popCancel_log, upd]
+    constructor <;> simp [clearP, popCancel_vals, popCancel_last, popCancel_log, upd]
     intro i; split <;> rfl
 
 
